@@ -114,9 +114,12 @@ def run(prop, tier, family='core', judge=None):
     try:
         recs = collect_programs(tier, family, res, rng, tiers)
         # every third program is built in touch mode (see pipeline.observe_all)
-        touch = [i % 3 == 2 for i in range(len(recs))]
+        # ... and every third in index-first mode: ds[i] for every i, last to first,
+        # BEFORE the first iteration (observe.observe_ds)
+        touch = [(1 if i % 3 == 2 else 2 if i % 3 == 1 else 0) for i in range(len(recs))]
         obs = pipeline.observe_all([r['prog'] for r in recs], touch=touch)
-        res.coverage['built_in_touch_mode'] = sum(touch)
+        res.coverage['built_in_touch_mode'] = sum(1 for t in touch if t == 1)
+        res.coverage['observed_index_first'] = sum(1 for t in touch if t == 2)
         for r_, t_ in zip(recs, touch):
             r_['touch'] = t_
         records = [{'id': i + 1, 'prog': r['prog'], 'obs': o}
@@ -176,7 +179,7 @@ def run(prop, tier, family='core', judge=None):
                 f'{clause}: {pipeline.short(rec["prog"])}',
                 {'family': 'pipeline', 'prog': rec['prog'], 'obs': rec['obs'],
                  'verdict': [status, clause], 'model_verdict': mv,
-                 'sched': r.get('sched'), 'sched_seed': r.get('seed'), 'touch': bool(r.get('touch')),
+                 'sched': r.get('sched'), 'sched_seed': r.get('seed'), 'touch': r.get('touch', 0),
                  'how': 'real observation judged by TLC (PipelineTrace.tla)'
                         + ('; it1 / it2 taken under seeded line-level schedules '
                            '(harness/schedobs.py)' if r.get('sched') == 'ok' else '')})
